@@ -2397,7 +2397,9 @@ EbErrorType read_tile_group_obu(Bitstrm *bs, EbDecHandle *dec_handle_ptr, TilesI
             parse_tile_data[tile_num].data_end  = bs->buf_max;
             parse_tile_data[tile_num].tile_size = tile_size;
 
-            start_parse_tile(dec_handle_ptr, parse_ctxt, tiles_info, tile_num, is_mt);
+            status = start_parse_tile(dec_handle_ptr, parse_ctxt, tiles_info, tile_num, is_mt);
+            if (status != EB_ErrorNone)
+                return status;
             dec_bits_init(bs, (get_bitsteam_buf(bs) + tile_size), obu_header->payload_size);
         }
     }
@@ -2575,6 +2577,8 @@ EbErrorType decode_multiple_obu(EbDecHandle *dec_handle_ptr, uint8_t **data, siz
                 dec_handle_ptr->seen_frame_header = 1;
                 status                            = read_frame_header_obu(
                     &bs, dec_handle_ptr, &obu_header, obu_header.obu_type != OBU_FRAME);
+                if (status != EB_ErrorNone)
+                    return status;
             }
             /*else {
                  For OBU_REDUNDANT_FRAME_HEADER, previous frame_header is taken from dec_handle_ptr->frame_header
